@@ -71,6 +71,21 @@ def handle (op : String) (args : List String) (rhs : String) : Verdict :=
       if !samePoly model (fpList r) then .bad "polyDeriv" ("expected=" ++ fpHexList model ++ " observed=" ++ rhs)
       else mirror (fpHexList model) rhs
     | _, _, _ => .unsupported "args"
+  | "polyAdd", [ps, as, bs] =>
+    match hexToNat? ps, parseNatList? as, parseNatList? bs with
+    | some p, some a, some b => withPrime p (.unsupported "p=0") fun q =>
+      spec "polyAdd" (fpHexList (Poly.add (fpList (p := q) a) (fpList b))) rhs
+    | _, _, _ => .unsupported "args"
+  | "polyScalarMul", [ps, as, ss] =>
+    match hexToNat? ps, parseNatList? as, hexToNat? ss with
+    | some p, some a, some s => withPrime p (.unsupported "p=0") fun q =>
+      spec "polyScalarMul" (fpHexList (Poly.smul (fpList (p := q) a) (Fp.ofNat q s))) rhs
+    | _, _, _ => .unsupported "args"
+  | "polyMul", [ps, as, bs] =>
+    match hexToNat? ps, parseNatList? as, parseNatList? bs with
+    | some p, some a, some b => withPrime p (.unsupported "p=0") fun q =>
+      spec "polyMul" (fpHexList (Poly.mulPoly (fpList (p := q) a) (fpList b))) rhs
+    | _, _, _ => .unsupported "args"
   | "lagrangeBasisAt", [ps, ns, xs] =>
     match hexToNat? ps, parseNatList? ns, hexToNat? xs with
     | some p, some n, some x => withPrime p (.unsupported "p=0") fun q =>
